@@ -614,7 +614,14 @@ func (e *Evaluator) evalBinaryExpr(expr *ExprBinary) (*Cell, error) {
 			memberVal.ParentObj = &left.Value
 			return NewCell(memberVal), nil
 		}
-		member.Value.Binding = &left.Value
+		if member.Value.Tag == ValueNativeFn {
+			// methods live in prototype cells shared by every value: bind the
+			// receiver to a copy, so that looking up a method on another value
+			// (e.g. in this call's arguments) cannot retarget this one
+			bound := NewCell(member.Value)
+			bound.Value.Binding = &left.Value
+			return bound, nil
+		}
 
 		return member, nil
 	case LessThan, GreaterThan, EqualEqual, LessEqual, GreaterEqual, BangEqual:
